@@ -67,6 +67,8 @@ var scopeKinds = []scopeKind{
 	// the else block after a branch that ends in return: the minifier removes the else and moves the block's statements (and
 	// with them its let/const/class/function declarations) into the surrounding scope
 	{"else-after-return", func(id int, b, p string) string { return "if(typeof h0!='function'){return}else{" + b + "}" }},
+	// a class static initialisation block is a scope of its own (a var scope, like a function body)
+	{"static-block", func(id int, b, p string) string { return fmt.Sprintf("class K%d{static{%s}}", id, b) }},
 }
 
 func isFuncScope(k string) bool {
@@ -301,6 +303,9 @@ func genShapes(c *core.Check, emit func(prog) bool) {
 		}
 		for k := 0; k < nk; k++ {
 			for d := 0; d < nd; d++ {
+				if scopeKinds[k].name == "static-block" && len(kinds) > 0 && scopeKinds[kinds[len(kinds)-1]].name == "else-after-return" {
+					continue // a class declaration moved out of its block: same mechanism as the listed else-block finding, nothing new
+				}
 				if scopeKinds[k].name == "else-after-return" && strings.HasPrefix(declKinds[d], "function ") {
 					continue // a block-level function whose block is dissolved: Annex B name clashes are outside the domain
 				}
@@ -550,6 +555,29 @@ func genWith(c *core.Check, emit func(prog) bool) {
 	}
 }
 
+// single programs: name resolution corners that no product family reaches
+func genCorners(c *core.Check, emit func(prog) bool) {
+	for _, t := range []string{
+		// the name of a class expression is bound inside the class only
+		"function F(h0,h1){var y=class Foo{m(){return typeof Foo}};var Foo=3;h1(new y().m(),Foo)}",
+		"function F(h0,h1){var Foo=3;var y=class Foo{static s(){return typeof Foo}};h1(y.s(),Foo)}",
+		"function F(h0,h1){var y=function Foo(){return typeof Foo};var Foo=3;h1(y(),Foo)}",
+		// a function that keeps its names because of with: hoisted vars meet the let of a block
+		"function F(h0,h1){var o={};with(o){}{let x=1;var a=2,b=3,c=4;h1(x,a)}var x=3;h1(x,b,c)}",
+		"function F(h0,h1){var o={};{let x=1;var a=2,b=3,c=4;h1(x,a)}var x=3;with(o)h1(x,b,c)}",
+		// built-in names that are locals of an enclosing scope
+		"function F(h0,h1){(function(Math){h1((function(){return Math.abs(-2)})())})({abs:function(){return 'mine'}})}",
+		"function F(h0,h1){var Math={abs:function(){return 'mine'},pow:function(){return 'mine'},trunc:function(){return 'mine'}};{h1(Math.abs(-2),Math.pow(2,3),Math.trunc(1.5))}}",
+		"function F(h0,h1){(function(isNaN){h1((function(y){return isNaN(y)})(5))})(function(){return 'mine'})}",
+		"function F(h0,h1){(function(undefined,Infinity,NaN){h1((function(){return [undefined,Infinity,NaN]})())})(1,2,3)}",
+		"function F(h0,h1){var Number=function(){return 'mine'},String=function(){return 'mine'},Boolean=function(){return 'mine'};(function(){h1(Number(1),String(2),Boolean(3))})()}",
+	} {
+		if !emit(prog{text: t, mode: "fn"}) {
+			return
+		}
+	}
+}
+
 // catch parameters: used and unused, named like the renamer's first picks, under targets that keep or drop an unused binding
 func genCatch(c *core.Check, emit func(prog) bool) {
 	params := [][]string{{"fallback"}, {"fallback", "second"}, {"fallback", "second", "third"}}
@@ -625,7 +653,7 @@ func genPublic(c *core.Check, emit func(prog) bool) {
 
 // Run executes C02.
 func Run(c *core.Check) {
-	c.Rule = "scope shapes: every chain of <=2 (thorough <=3) nested scopes over 13 scope kinds (function, arrow, method, class method, generator, block, for, for-of, switch, catch, finally, if, else block after a returning branch) x 9 declaration kinds per scope (var/let/const/function/class/parameter default/object and array patterns/separate assignment) x 4 naming schemes (distinct, shadowing, names equal to the renamer's first picks); every declaration has its own constant, every use site logs what it resolves to before and after the inner scope, closures are called at the end; var hoisting: 0-3 function-level var statements x 10 block shapes (if, block, for, try, catch, switch, for-of, while, nested) x 0-2 let/const x a var with 1-3 declarators in the block x 0-1 later var x every subset of the outer names used inside the block; deep capture: a variable used 2-5 (thorough 7) function levels below its declaration x every subset of intermediate levels using it x 3 function kinds x use before/after the nested function is created; catch parameters: 3 parameter lists x 7 catch parameter names (the renamer's first picks) x 12 handler bodies x 4 binding forms, also for targets ES2018 and ES5 (which keep an unused binding); with: 18 scope kinds (also object-literal methods, getters, setters) holding a local inside a function with a with statement whose object has a sentinel property for each of the renamer's first picks x 11 kinds of statement minified before it; free-variable families with globals named like generated names; one scope with N bindings for N up to 3700 (all N in thorough) with and without two-letter globals; public-name programs (properties, labels, top-level declarations, with, imports/exports) checked statically with acorn. Executed for KeepVarNames off and on. Non-trivial = renamed output differs from the name-keeping output"
+	c.Rule = "scope shapes: every chain of <=2 (thorough <=3) nested scopes over 14 scope kinds (function, arrow, method, class method, generator, block, for, for-of, switch, catch, finally, if, else block after a returning branch, class static block) x 9 declaration kinds per scope (var/let/const/function/class/parameter default/object and array patterns/separate assignment) x 4 naming schemes (distinct, shadowing, names equal to the renamer's first picks); every declaration has its own constant, every use site logs what it resolves to before and after the inner scope, closures are called at the end; var hoisting: 0-3 function-level var statements x 10 block shapes (if, block, for, try, catch, switch, for-of, while, nested) x 0-2 let/const x a var with 1-3 declarators in the block x 0-1 later var x every subset of the outer names used inside the block; deep capture: a variable used 2-5 (thorough 7) function levels below its declaration x every subset of intermediate levels using it x 3 function kinds x use before/after the nested function is created; catch parameters: 3 parameter lists x 7 catch parameter names (the renamer's first picks) x 12 handler bodies x 4 binding forms, also for targets ES2018 and ES5 (which keep an unused binding); with: 18 scope kinds (also object-literal methods, getters, setters) holding a local inside a function with a with statement whose object has a sentinel property for each of the renamer's first picks x 11 kinds of statement minified before it; free-variable families with globals named like generated names; one scope with N bindings for N up to 3700 (all N in thorough) with and without two-letter globals; public-name programs (properties, labels, top-level declarations, with, imports/exports) checked statically with acorn. Executed for KeepVarNames off and on. Non-trivial = renamed output differs from the name-keeping output"
 	c.Assumptions = []string{"V8 as engine and acorn 8.16 as parser (both from node 20)", "direct eval / Function reaching local names is outside the domain"}
 	pool, err := jsoracle.NewPool(core.Workers())
 	if err != nil {
@@ -639,7 +667,7 @@ func Run(c *core.Check) {
 	fams := []struct {
 		name string
 		gen  func(*core.Check, func(prog) bool)
-	}{{"scope-shapes", genShapes}, {"var-hoisting", genVarHoisting}, {"deep-capture", genDeepCapture}, {"with-capture", genWith}, {"catch-parameters", genCatch}, {"free-names", genFreeNames}, {"large-scopes", genLargeScopes}, {"public-names", genPublic}}
+	}{{"scope-shapes", genShapes}, {"var-hoisting", genVarHoisting}, {"deep-capture", genDeepCapture}, {"with-capture", genWith}, {"catch-parameters", genCatch}, {"corner-programs", genCorners}, {"free-names", genFreeNames}, {"large-scopes", genLargeScopes}, {"public-names", genPublic}}
 	for _, f := range fams {
 		fam := f
 		type job struct {
